@@ -413,6 +413,9 @@ glyphLoop:
 							},
 						})
 					}
+					if len(postscriptStack) < 1 {
+						return nil, invalidSince("flex end without arguments")
+					}
 					postscriptStack = postscriptStack[:len(postscriptStack)-1]
 					inFlex = false
 				case 1: // flex start (0 args)
